@@ -1,0 +1,36 @@
+//go:build verif
+
+// Contracts for the deductive verifier in /verif (govc): a search never shares
+// mutable evaluation state with another search (C04). Comment-only file,
+// compiled only with -tags verif. Ownership contracts decided by the frames
+// back end.
+
+package index
+
+// Every match tree handed to a search is built for that search: each node
+// returned by the constructors below is allocated by the call (or by a callee
+// with the same contract) - never an object that existed before, such as a
+// node kept in the per-shard cache of metadata match trees. Match-tree nodes
+// carry cursors (docID, firstDone, current candidates) that evaluation
+// mutates; a node shared between two searches would make one search's result
+// depend on the other.
+//@ func index.(*indexData).newMatchTree
+//@   returns_fresh
+//@ func index.(*indexData).regexpToMatchTreeRecursive
+//@   returns_fresh
+//@ func index.(*indexData).newSubstringMatchTree
+//@   returns_fresh
+//@ func index.newRegexpMatchTree
+//@   returns_fresh
+//@ func index.(*docMatchTree).fresh
+//@   returns_fresh
+
+// Nothing a search (or a list) can reach writes the loaded shard: no store and
+// no map update whose target is reached through the *indexData - its tables,
+// slices loaded from its fields, its repository metadata. The one exception is
+// the mutex-protected cache of metadata match trees, whose entries are only
+// ever copied from (contract above). Together with the freshness contracts:
+// two searches share only memory that neither of them writes.
+// (the clause for index.(*indexData).Search is written with its other contracts in zz_verif_contracts_c21.go)
+//@ func index.(*indexData).List
+//@   no_store_through indexData except docMatchTreeCache
